@@ -11,7 +11,7 @@
 (* hist carries the history the spacing clause of C09 and the monotonic    *)
 (* clause of C06 need.                                                     *)
 (***************************************************************************)
-EXTENDS Props, Json, Sequences
+EXTENDS Conf, Json, Sequences
 
 CONSTANT TraceFile
 
@@ -37,7 +37,7 @@ UpdHist(h, e) ==
          THEN [h EXCEPT !.lastPodSync = [x \in (DOMAIN h.lastPodSync) \ {e.rs} |-> h.lastPodSync[x]]]   \* status write failed: clause void
     ELSE h
 
-Init == l = 1 /\ hist = NoHist
+Init == l = 1 /\ hist = NoHist /\ TLCSet(11, 0) /\ TLCSet(12, 0)
 Next == /\ l < Len(Trace)
         /\ l' = l + 1
         /\ hist' = UpdHist(hist, Trace[l + 1])
@@ -69,6 +69,15 @@ C09_Spacing(s, e) ==
        LET d == EDSOf(s, RSOf(s, e.rs).owner) IN
          d.strat.frequency >= 0 => (NT(<<"C09", "spacing", e.state.now - hist.lastPodSync[e.rs]>>) /\ e.state.now - hist.lastPodSync[e.rs] >= d.strat.frequency)
 P_C09s == [][Step(C09_Spacing)]_vars
+
+\* conformance of recorded reconciles with the decision procedures of the model (measured, not convicting)
+ConfCount(s, e) ==
+    IF Conf_Applies(s, e)
+    THEN /\ TLCSet(11, TLCGet(11) + 1)
+         /\ IF Conf_Step(s, e) THEN TLCSet(12, TLCGet(12) + 1) ELSE PrintT(<<"DRIFT", l', e.ev>>)
+    ELSE TRUE
+P_Conf == [][Step(ConfCount)]_vars
+ConfReport == PrintT(<<"CONF", TLCGet(11), TLCGet(12)>>)
 
 I_C13 == Trace[l].ev = "reset" \/ C13_Inv(Trace[l].state)
 
